@@ -19,6 +19,7 @@ All theorems are unbounded (any cutoff, any number of variables, any op contents
 contract, any callback for the iterators).
 -/
 import QmcProofs.FastOpsHintIter
+import QmcProofs.FastOpsSubOps
 
 namespace Qmc.C11
 open Qmc Qmc.FastOps
@@ -237,6 +238,56 @@ theorem scan_ops_spec (s : Slots) (ps pe : Nat) :
     (scanOps s ps pe).Pairwise (fun a b => a.1 < b.1) :=
   ⟨mem_scanOps s ps pe, scanOps_sorted s ps pe⟩
 
+/-! ## the heap branch of `mutate_subsection_ops` (sub-variable cursor) -/
+
+/-- `mutate_subsection_ops(pstart, pend, t, f, Some(args))` with a correct sub-variable cursor at `pstart`
+(`SubCur`; `args` built over `Varlist(vars)`), on a container satisfying the invariant: the result satisfies
+the invariant again and its contents / the accumulator are those of the naive loop `subOpsLoopA` — the
+callback is asked exactly at the occupied slots `pstart ≤ q ≤ pend` whose op touches a listed variable, in
+increasing order, seeing the container of the current slots; `SubActOK`: it only changes ops inside the
+listed variables (the `debug_assert!` of `mutate_p`). -/
+theorem sub_ops_heap_refines {τ : Type} (c : FastOps) (h : Inv c) (vars : List Nat) (hn : vars.Nodup)
+    (hlt : ∀ v ∈ vars, v < c.getNvars) (ps pe : Nat) (t : τ)
+    (f : FastOps → Op → Nat → τ → Option (Option Op) × τ)
+    (hf : ∀ c' o q t', SubActOK c.getNvars c.nbonds vars (some o) (f c' o q t').1)
+    (a : Cursor) (m : List (Option Nat)) (hmap : a.subvarMapping = some (m, vars))
+    (ha : SubCur a vars c.abs ps) :
+    Inv (c.mutateSubsectionOps ps pe t f (some a)).1 ∧
+    (c.mutateSubsectionOps ps pe t f (some a)).1.abs
+      = (subOpsLoopA c.getNvars c.nbonds vars f ps (min (pe + 1) (growA c.abs pe).length - ps) (growA c.abs pe) t).1 ∧
+    (c.mutateSubsectionOps ps pe t f (some a)).2
+      = (subOpsLoopA c.getNvars c.nbonds vars f ps (min (pe + 1) (growA c.abs pe).length - ps) (growA c.abs pe) t).2 := by
+  obtain ⟨k1, k2, k3⟩ := mutateSubsectionOps_sub c.getNvars c.nbonds c.abs vars hn hlt ps pe t f hf h.2 a m hmap ha
+  have e : c.mutateSubsectionOps ps pe t f (some a)
+      = (canon c.getNvars c.nbonds c.abs).mutateSubsectionOps ps pe t f (some a) :=
+    congrArg (fun c' : FastOps => c'.mutateSubsectionOps ps pe t f (some a)) h.1
+  rw [e]
+  refine ⟨?_, ?_, k2⟩
+  · rw [k1]; exact inv_canon _ _ _ k3
+  · rw [k1, abs_canon]
+
+/-- RVB's sequence in one statement: `get_empty_args(Varlist(vars))`, `fill_args_at_p_with_hint(pstart, …)`,
+`mutate_subsection_ops(pstart, pend, …, Some(args))` — for every hint inside the contract the fill succeeds
+and the sweep refines the naive loop. -/
+theorem hint_fill_then_sub_ops {τ : Type} (c : FastOps) (h : Inv c) (vars : List Nat)
+    (hint : List (Option Nat)) (hn : vars.Nodup) (hlt : ∀ v ∈ vars, v < c.getNvars)
+    (hok : HintOK c.abs vars hint) (ps pe : Nat) (hp : ps ≤ c.getCutoff) (t : τ)
+    (f : FastOps → Op → Nat → τ → Option (Option Op) × τ)
+    (hf : ∀ c' o q t', SubActOK c.getNvars c.nbonds vars (some o) (f c' o q t').1) :
+    ∃ a, c.fillArgsWithHint ps (c.getEmptyArgsVarlist vars) vars hint = some a ∧
+      Inv (c.mutateSubsectionOps ps pe t f (some a)).1 ∧
+      (c.mutateSubsectionOps ps pe t f (some a)).1.abs
+        = (subOpsLoopA c.getNvars c.nbonds vars f ps (min (pe + 1) (growA c.abs pe).length - ps) (growA c.abs pe) t).1 ∧
+      (c.mutateSubsectionOps ps pe t f (some a)).2
+        = (subOpsLoopA c.getNvars c.nbonds vars f ps (min (pe + 1) (growA c.abs pe).length - ps) (growA c.abs pe) t).2 := by
+  obtain ⟨a, h1, h2, _⟩ := hint_fill_is_subcursor c h ps vars hint hp hn hlt hok
+  refine ⟨a, h1, ?_⟩
+  have hmap : a.subvarMapping = (c.getEmptyArgsVarlist vars).subvarMapping := by
+    have := hint_fill_eq_scan c h ps vars hint hp hlt hok
+    rw [h1] at this
+    rw [Option.some.inj this]; rfl
+  exact sub_ops_heap_refines c h vars hn hlt ps pe t f hf a _ (by rw [hmap]; rfl) h2
+
 /-! ## non-vacuity, and what happens outside the contract (the model does what the Rust does) -/
 
 def hOpA : Op := Op.offdiagonal [0, 1] 1 [false, false] [true, false] false
@@ -321,5 +372,21 @@ example : (hC.tryIteratePs 5 2 () (fun _ _ t => (.ok t : Except Unit Unit))).isN
 example : (hC.tryIterateOps 9 12 () (fun _ _ _ t => (.ok t : Except Unit Unit))).isNone = true := by decide
 example : ((canon 3 none [none, none]).tryIterateOps 9 12 () (fun _ _ _ t => (.ok t : Except Unit Unit))).isSome = true := by
   decide
+
+/-- heap branch: vars `[1, 2]`, range `1 ..= 5`, cursor from the hint fill; the callback replaces the op at 3
+(on variables 1,2) by an op on variable 1 and removes the op at 2 (on variable 2); slots 0 and 5 (variable 0
+only, resp. a listed variable but kept) are untouched — the container is the scan of the naive result -/
+def hNew : Op := Op.diagonal [1] 4 [false] false
+def hF : FastOps → Op → Nat → Nat → Option (Option Op) × Nat := fun _ _ q n =>
+  if q = 3 then (some (some hNew), n + 1) else if q = 2 then (some none, n + 1) else (none, n + 1)
+
+example : (hC.fillArgsWithHint 1 (hC.getEmptyArgsVarlist [1, 2]) [1, 2] [some 3, none]).map
+    (fun a => (hC.mutateSubsectionOps 1 5 0 hF (some a)).1)
+    = some (canon 3 none [some hOpA, none, none, some hNew, none, some hOpD, some hOpE]) := by decide
+/-- the callback was asked at slots 2 and 3 only (slot 5 holds an op on variable 0 alone, slot 6 is beyond `pend`) -/
+example : (hC.fillArgsWithHint 1 (hC.getEmptyArgsVarlist [1, 2]) [1, 2] [some 3, none]).map
+    (fun a => (hC.mutateSubsectionOps 1 5 0 hF (some a)).2) = some 2 := by decide
+example : (subOpsLoopA 3 none [1, 2] hF 1 5 hSlots 0)
+    = ([some hOpA, none, none, some hNew, none, some hOpD, some hOpE], 2) := by decide
 
 end Qmc.C11
